@@ -1,15 +1,830 @@
-use std::io::Read;
-fn main() {
-    let args: Vec<String> = std::env::args().collect();
-    if args.get(1).map(|s| s.as_str()) == Some("probe") {
-        let mut s = String::new();
-        std::io::stdin().read_to_string(&mut s).unwrap();
-        for line in s.lines() {
-            if line.trim().is_empty() { continue; }
-            match anda_kip::parse_kip(line) {
-                Ok(c) => println!("OK   {}\n     {}", line, serde_json::to_string(&c).unwrap()),
-                Err(e) => println!("ERR  {}\n     {:?} {}", line, e.code, e.message.lines().next().unwrap_or("")),
+//! h_kip — harness for C16 (no accepted KIP mutation touches engine-owned or immutable state).
+//!
+//!   h_kip c16 --out FILE [--plans N] [--mutations N] [--full]
+//!   h_kip probe            (stdin: one command per line; prints what parse_kip does)
+//!
+//! Text path: the property's finite matrix (clause family x target kind x block x field name x
+//! spelling) is enumerated completely and sent through the real `parse_kip`.
+//! Tree path: the same matrix as JSON-injected trees (a sentinel key of an accepted tree is
+//! replaced by each name; selections the grammar refuses in KML are transplanted from KQL
+//! parses), plus hand-built malformed trees and single-node mutations, each deserialised into
+//! `anda_kip::Command` and sent through the real `validate_command`.
+//! Every tree is written out with the implementation's verdict for the model comparison; the
+//! direct oracle (oracle.rs) judges every accepted tree.
+mod oracle;
+
+use anda_kip::{Command, KipErrorCode, parse_kip, validate_command};
+use h_common::{Rng, arg_value};
+use serde_json::{Value, json};
+use std::collections::{BTreeMap, BTreeSet};
+use std::io::{Read, Write};
+
+fn verdict_of(code: &KipErrorCode) -> String {
+    match code {
+        KipErrorCode::InvalidSyntax => "InvalidSyntax".into(),
+        KipErrorCode::DuplicateLocalHandle => "DuplicateLocalHandle".into(),
+        KipErrorCode::ReferenceError => "ReferenceError".into(),
+        other => format!("other:{other:?}"),
+    }
+}
+
+struct Out {
+    w: std::io::BufWriter<std::fs::File>,
+    seen: BTreeSet<String>,
+    trees: usize,
+    accepted: BTreeMap<String, usize>,
+    rejected: BTreeMap<String, usize>,
+    failures: Vec<Value>,
+    failure_classes: BTreeMap<String, usize>,
+    oracle_failures: usize,
+    texts: usize,
+    text_accepted: usize,
+    text_errors: BTreeMap<String, usize>,
+    families: BTreeMap<String, usize>,
+    inject_total: usize,
+    asserts: usize,
+    assert_accepted: usize,
+}
+
+impl Out {
+    fn fail(&mut self, class: &str, what: String, src: &str, cmd: Option<&Value>) {
+        self.oracle_failures += 1;
+        let n = self.failure_classes.entry(class.to_string()).or_default();
+        *n += 1;
+        if *n <= 4 {
+            self.failures.push(json!({"class": class, "what": what, "input": src, "tree": cmd}));
+        }
+    }
+
+    /// record one tree with the implementation's verdict; judge it when accepted
+    fn tree(&mut self, path: &str, family: &str, src: &str, cmd: &Command, verdict: &str, important: bool) {
+        let v = serde_json::to_value(cmd).expect("serialise");
+        if verdict == "ok" {
+            *self.accepted.entry(path.to_string()).or_default() += 1;
+            for fd in oracle::findings(&v) {
+                self.fail(fd.class, fd.what, src, Some(&v));
+            }
+        } else {
+            *self.rejected.entry(format!("{path}:{verdict}")).or_default() += 1;
+        }
+        *self.families.entry(format!("{path}:{family}")).or_default() += 1;
+        let key = format!("{verdict}|{v}");
+        if self.seen.insert(key) {
+            self.trees += 1;
+            let line = json!({"kind": "tree", "path": path, "family": family, "src": src, "cmd": v,
+                              "verdict": verdict, "important": important});
+            writeln!(self.w, "{line}").unwrap();
+        }
+    }
+
+    /// text path: real parse_kip; an accepted text must also pass validate_command
+    fn text(&mut self, family: &str, src: &str, important: bool) -> Option<Command> {
+        self.texts += 1;
+        let res = std::panic::catch_unwind(|| parse_kip(src));
+        match res {
+            Err(_) => {
+                self.fail("parser-panic", "parse_kip panicked".into(), src, None);
+                None
+            }
+            Ok(Ok(cmd)) => {
+                self.text_accepted += 1;
+                if let Err(e) = validate_command(&cmd) {
+                    let v = serde_json::to_value(&cmd).unwrap();
+                    self.fail("text-accepts-what-validator-rejects",
+                              format!("parse_kip accepted, validate_command refuses: {:?}", e.code), src, Some(&v));
+                }
+                // serde round trip must give the same tree (the tree path relies on it)
+                let v = serde_json::to_value(&cmd).unwrap();
+                match serde_json::from_value::<Command>(v.clone()) {
+                    Ok(back) if back == cmd => {}
+                    _ => self.fail("serde-roundtrip", "accepted tree does not round-trip through JSON".into(), src, Some(&v)),
+                }
+                self.tree("text", family, src, &cmd, "ok", important);
+                Some(cmd)
+            }
+            Ok(Err(e)) => {
+                *self.text_errors.entry(format!("{:?}", e.code)).or_default() += 1;
+                None
             }
         }
+    }
+
+    /// tree path: JSON -> Command -> real validate_command
+    fn inject(&mut self, family: &str, label: &str, v: &Value, important: bool) {
+        let Ok(cmd) = serde_json::from_value::<Command>(v.clone()) else { return };
+        self.inject_total += 1;
+        let res = std::panic::catch_unwind(|| validate_command(&cmd));
+        match res {
+            Err(_) => self.fail("validator-panic", "validate_command panicked".into(), label, Some(v)),
+            Ok(Ok(())) => self.tree("inject", family, label, &cmd, "ok", important),
+            Ok(Err(e)) => {
+                let vd = verdict_of(&e.code);
+                self.tree("inject", family, label, &cmd, &vd, important)
+            }
+        }
+    }
+}
+
+// ------------------------------------------------------------------------------ names
+const ORDINARY: &[&str] = &["name", "note", "x", "id", "key", "type", "state", "version", "aliases"];
+
+fn base_names() -> Vec<(&'static str, &'static str)> {
+    let mut v = Vec::new();
+    for n in oracle::ENGINE_OWNED { v.push((*n, "protected")); }
+    for n in oracle::ASSERTION_PAYLOAD { v.push((*n, "assertion")); }
+    for n in oracle::EVIDENCE_PAYLOAD { v.push((*n, "evidence")); }
+    for n in oracle::PROPOSITION_PAYLOAD { v.push((*n, "proposition")); }
+    for n in ORDINARY { v.push((*n, "ordinary")); }
+    v
+}
+
+fn is_ident(s: &str) -> bool {
+    let mut cs = s.chars();
+    match cs.next() {
+        Some(c) if c.is_ascii_alphabetic() || c == '_' => {}
+        _ => return false,
+    }
+    cs.all(|c| c.is_ascii_alphanumeric() || c == '_')
+}
+
+/// name variants: exact, upper case, capitalised, nested-path, padded
+fn variants(n: &str) -> Vec<String> {
+    let mut cap = n.to_string();
+    if let Some(i) = cap.find(|c: char| c.is_ascii_alphabetic()) {
+        let up = cap[i..i + 1].to_ascii_uppercase();
+        cap.replace_range(i..i + 1, &up);
+    }
+    let mut v = vec![n.to_string(), n.to_ascii_uppercase(), cap, format!("{n}.x"), format!("{n} "), format!("x.{n}")];
+    v.dedup();
+    v
+}
+
+/// spellings of a key in source text: bare identifier (when it is one) and quoted
+fn spellings(k: &str) -> Vec<String> {
+    let q = serde_json::to_string(k).unwrap();
+    if is_ident(k) { vec![k.to_string(), q] } else { vec![q] }
+}
+
+const SENTINEL: &str = "zzkey";
+
+fn replace_str(v: &Value, from: &str, to: &str) -> Value {
+    match v {
+        Value::String(s) if s == from => Value::String(to.to_string()),
+        Value::Array(a) => Value::Array(a.iter().map(|x| replace_str(x, from, to)).collect()),
+        Value::Object(m) => Value::Object(m.iter().map(|(k, x)| {
+            (if k == from { to.to_string() } else { k.clone() }, replace_str(x, from, to))
+        }).collect()),
+        other => other.clone(),
+    }
+}
+
+// ------------------------------------------------------------------------------ matrix
+const BLOCKS: &[&str] = &["SET FIELDS", "SET ATTRIBUTES", "SET FACET", "UNSET ATTRIBUTES", "UNSET FACET", "SET STRUCTURAL", "UNSET STRUCTURAL"];
+
+fn block_text(block: &str, key: &str, value: &str) -> String {
+    match block {
+        "SET FIELDS" => format!("SET FIELDS {{ {key}: {value} }}"),
+        "SET ATTRIBUTES" => format!("SET ATTRIBUTES {{ {key}: {value} }}"),
+        "SET FACET" => format!("SET FACET \"F\" {{ {key}: {value} }}"),
+        "UNSET ATTRIBUTES" => format!("UNSET ATTRIBUTES {{ {key} }}"),
+        "UNSET FACET" => format!("UNSET FACET \"F\" {{ {key} }}"),
+        "SET STRUCTURAL" => format!("SET STRUCTURAL {{ ({key}, :e) }}"),
+        "UNSET STRUCTURAL" => format!("UNSET STRUCTURAL {{ ({key}, :e) }}"),
+        _ => unreachable!(),
+    }
+}
+
+/// (label, target text, trailing WHERE text, prefix clause inside MUTATE or "")
+fn update_targets() -> Vec<(String, String, String, String)> {
+    let mut v: Vec<(String, String, String, String)> = vec![
+        ("param".into(), ":t".into(), "".into(), "".into()),
+        ("id".into(), "\"C-1\"".into(), "".into(), "".into()),
+        ("plan-handle".into(), "?t".into(), "".into(), "CREATE CONCEPT ?t { TYPE \"T\" }".into()),
+    ];
+    let pat = |k: &str| -> String {
+        match k {
+            "CONCEPT" => "?t CONCEPT {id: \"X-1\"}".into(),
+            "BARE" => "?t {id: \"X-1\"}".into(),
+            "ASSERTION" => "?t ASSERTION {id: \"X-1\"}".into(),
+            "EVIDENCE" => "?t EVIDENCE {id: \"X-1\"}".into(),
+            "ACTIVITY" => "?t ACTIVITY {id: \"X-1\"}".into(),
+            "PROPOSITION" => "?t PROPOSITION (:a, \"p\", :b)".into(),
+            "TUPLE" => "?t (:a, \"p\", :b)".into(),
+            "STRUCTURAL" => "?t STRUCTURAL (:a, \"f\", :b)".into(),
+            _ => unreachable!(),
+        }
+    };
+    for k in ["CONCEPT", "BARE", "ASSERTION", "EVIDENCE", "ACTIVITY", "PROPOSITION", "TUPLE", "STRUCTURAL"] {
+        v.push((format!("where-{k}"), "?t".into(), format!("WHERE {{ {} }}", pat(k)), "".into()));
+    }
+    // a second typing written first / nested, which must not shadow the record typing
+    for k in ["ASSERTION", "EVIDENCE", "PROPOSITION", "ACTIVITY"] {
+        let c = pat("CONCEPT");
+        let r = pat(k);
+        v.push((format!("not-concept-then-{k}"), "?t".into(), format!("WHERE {{ NOT {{ {c} }} {r} }}"), "".into()));
+        v.push((format!("optional-concept-then-{k}"), "?t".into(), format!("WHERE {{ OPTIONAL {{ {c} }} {r} }}"), "".into()));
+        v.push((format!("concept-union-{k}"), "?t".into(), format!("WHERE {{ {c} UNION {{ {r} }} }}"), "".into()));
+        v.push((format!("concept-and-{k}"), "?t".into(), format!("WHERE {{ {c} {r} }}"), "".into()));
+        v.push((format!("nested-{k}"), "?t".into(), format!("WHERE {{ ?u {{id: \"U\"}} OPTIONAL {{ UNION {{ {r} }} }} }}"), "".into()));
+    }
+    v
+}
+
+fn values_for(i: usize, has_target_var: bool) -> &'static str {
+    let vs: &[&str] = if has_target_var {
+        &["1", "\"v\"", ":p", "ADD(?t.n, 1)", "{ \"_system\": 1 }", "[:p, 2]", "COALESCE(?t.facets[\"F\"].m, 0)"]
+    } else {
+        &["1", "\"v\"", ":p", "{ \"_system\": 1 }", "[:p, 2]", "null", "ADD(:p, 1)"]
+    };
+    vs[i % vs.len()]
+}
+
+fn matrix(o: &mut Out, seeds: &mut Vec<(String, Value)>) {
+    let names = base_names();
+    let targets = update_targets();
+    let mut idx = 0usize;
+    // sentinel seeds for the tree path + the full text matrix
+    let mut keys: Vec<(String, bool)> = vec![(SENTINEL.to_string(), false)];
+    for (n, class) in &names {
+        for v in variants(n) {
+            keys.push((v, *class != "ordinary"));
+        }
+    }
+    for (k, important) in &keys {
+        for sp in spellings(k) {
+            let is_seed = k == SENTINEL;
+            for block in BLOCKS {
+                let structural = block.contains("STRUCTURAL");
+                let key_txt = if structural { serde_json::to_string(k).unwrap() } else { sp.clone() };
+                if structural && sp != key_txt {
+                    continue; // structural field names are always quoted symbols
+                }
+                let mut emit = |o: &mut Out, family: &str, text: String| {
+                    let cmd = o.text(family, &text, *important);
+                    if is_seed {
+                        if let Some(cmd) = cmd {
+                            seeds.push((family.to_string(), serde_json::to_value(&cmd).unwrap()));
+                        }
+                    }
+                };
+                idx += 1;
+                let val = values_for(idx, false);
+                let b = block_text(block, &key_txt, val);
+                emit(o, &format!("CREATE CONCEPT/{block}"), format!("CREATE CONCEPT ?h {{ TYPE \"T\" {b} }}"));
+                emit(o, &format!("UPSERT CONCEPT/{block}"), format!("UPSERT CONCEPT ?h {{ MATCH {{id: \"C-1\"}} {b} }}"));
+                for rec in ["EVIDENCE", "ASSERTION", "ACTIVITY"] {
+                    emit(o, &format!("CREATE {rec}/{block}"), format!("CREATE {rec} ?h {{ {b} }}"));
+                }
+                if *block == "SET FIELDS" || *block == "SET STRUCTURAL" {
+                    emit(o, &format!("TRANSITION ACTIVITY/{block}"), format!("TRANSITION ACTIVITY :act TO \"succeeded\" {b}"));
+                }
+                if *block == "SET FIELDS" {
+                    emit(o, "SET RETENTION/values", format!("SET RETENTION :t {{ {key_txt}: {val} }}"));
+                    emit(o, "SET RETENTION/values+where",
+                         format!("SET RETENTION ?t {{ {key_txt}: {val} }} WHERE {{ ?t ASSERTION {{id: \"A-1\"}} }}"));
+                    emit(o, "ASSERT/member", format!("ASSERT (:a, \"p\", :b) {{ by: :me, mode: \"stated\", {key_txt}: {val} }}"));
+                }
+                for (label, target, wh, prefix) in &targets {
+                    let has_var = target == "?t";
+                    let val = values_for(idx, has_var);
+                    let b = block_text(block, &key_txt, val);
+                    let stmt = format!("UPDATE {target} {b} {wh}");
+                    let text = if prefix.is_empty() { stmt } else { format!("MUTATE {{ {prefix} {stmt} }}") };
+                    emit(o, &format!("UPDATE[{label}]/{block}"), text);
+                }
+            }
+        }
+    }
+}
+
+// ------------------------------------------------------------------------------ selections
+fn selection_patterns() -> Vec<(&'static str, &'static str)> {
+    vec![
+        ("concept", "?x CONCEPT {id: \"C-1\"}"),
+        ("belief-tuple", "?x BELIEF (:a, \"p\", :b)"),
+        ("belief-id", "?x BELIEF (id: \"P-1\")"),
+        ("belief-var", "?p PROPOSITION (:a, \"p\", :b) ?x BELIEF (?p)"),
+        ("belief-slot", "?x BELIEF SLOT (:a, \"p\")"),
+        ("belief-lower", "?x belief (:a, \"p\", :b)"),
+        ("belief-in-not", "?x {id: \"C-1\"} NOT { ?b BELIEF (:a, \"p\", :b) }"),
+        ("belief-in-optional", "?x {id: \"C-1\"} OPTIONAL { ?b BELIEF SLOT (?x, \"p\") }"),
+        ("belief-in-union", "?x {id: \"C-1\"} UNION { ?x BELIEF (:a, \"p\", :b) }"),
+        ("belief-deep", "?x {id: \"C-1\"} NOT { OPTIONAL { UNION { ?b BELIEF (:a, \"p\", :b) } } }"),
+        ("path-alt", "?x PROPOSITION (:a, \"p\"|\"q\", :b)"),
+        ("path-hops", "?x PROPOSITION (:a, \"p\"{1,3}, :b)"),
+        ("path-one-hop", "?x PROPOSITION (:a, \"p\"{1}, :b)"),
+        ("path-bare-tuple", "?x (:a, \"p\"|\"q\", :b)"),
+        ("path-anonymous", "?x {id: \"C-1\"} (:a, \"p\"{2,}, ?x)"),
+        ("path-in-term", "?x PROPOSITION (:a, \"says\", (:c, \"p\"|\"q\", :d))"),
+        ("path-in-matcher", "?x CONCEPT {about: (:c, \"p\"{1,2}, :d)}"),
+        ("path-in-array", "?x CONCEPT {about: [(:c, \"p\"|\"q\", :d)]}"),
+        ("path-in-structural", "?x STRUCTURAL ((:c, \"p\"|\"q\", :d), \"f\", :b)"),
+        ("path-in-not", "?x {id: \"C-1\"} NOT { (:a, \"p\"|\"q\", ?x) }"),
+        ("literal-subject", "?x PROPOSITION (\"lit\", \"p\", :b)"),
+        ("id-prop", "?x PROPOSITION (id: \"P-1\")"),
+        ("var-pred", "?x PROPOSITION (:a, ?pred, :b)"),
+        ("filter", "?x {id: \"C-1\"} FILTER(?x.n > 1 && !IS_NULL(?x.m))"),
+    ]
+}
+
+fn selection_families() -> Vec<(&'static str, String)> {
+    vec![
+        ("UPDATE", "UPDATE ?x SET ATTRIBUTES { a: 1 } WHERE { @ }".into()),
+        ("RETRACT ASSERTION", "RETRACT ASSERTION ?x WHERE { @ } LIMIT 1".into()),
+        ("SET RETENTION", "SET RETENTION ?x { policy: \"keep\" } WHERE { @ }".into()),
+        ("ARCHIVE", "ARCHIVE ?x WHERE { @ }".into()),
+        ("TOMBSTONE", "TOMBSTONE ?x WHERE { @ } LIMIT 2".into()),
+        ("PURGE", "PURGE ?x WHERE { @ } CONFIRM \"PURGE\"".into()),
+        ("MERGE CONCEPT", "MERGE CONCEPT ?x INTO :into WHERE { @ }".into()),
+        ("EXPORT CAPSULE", "EXPORT CAPSULE :out WHERE { @ }".into()),
+    ]
+}
+
+fn selections(o: &mut Out) {
+    for (fam, tmpl) in selection_families() {
+        for (label, pat) in selection_patterns() {
+            let text = tmpl.replace('@', pat);
+            o.text(&format!("{fam}/select:{label}"), &text, true);
+            // the same selection as an injected tree: take the WHERE block from a KQL parse
+            // (which admits BELIEF and raw paths) and transplant it into the accepted host tree
+            let host = tmpl.replace('@', "?x CONCEPT {id: \"C-1\"}");
+            let (Ok(host), Ok(Command::Kql(q))) = (parse_kip(&host), parse_kip(&format!("FIND(?x) WHERE {{ {pat} }}"))) else { continue };
+            let mut hv = serde_json::to_value(&host).unwrap();
+            let wv = serde_json::to_value(&q.where_clauses).unwrap();
+            set_where(&mut hv, &wv);
+            o.inject(&format!("{fam}/select:{label}"), &format!("{fam} with WHERE of: FIND(?x) WHERE {{ {pat} }}"), &hv, true);
+        }
+    }
+    o.text("EXPORT CAPSULE/empty", "EXPORT CAPSULE :out WHERE { }", true);
+    o.inject("EXPORT CAPSULE/empty", "EXPORT with empty selection",
+             &json!({"Meta": {"ExportCapsule": {"target": {"Param": "out"}, "where_clauses": [], "options": null, "as_of": null}}}), true);
+}
+
+fn set_where(v: &mut Value, w: &Value) {
+    match v {
+        Value::Object(m) => {
+            for (k, x) in m.iter_mut() {
+                if k == "where_clauses" {
+                    *x = w.clone();
+                } else {
+                    set_where(x, w);
+                }
+            }
+        }
+        Value::Array(a) => a.iter_mut().for_each(|x| set_where(x, w)),
+        _ => {}
+    }
+}
+
+// ------------------------------------------------------------------------------ single guards
+fn guards(o: &mut Out) {
+    let texts: &[(&str, &str)] = &[
+        ("ENSURE/id", "ENSURE PROPOSITION (id: \"P-1\")"),
+        ("ENSURE/id-param", "ENSURE PROPOSITION ?p (id: :pid)"),
+        ("ENSURE/var-pred", "ENSURE PROPOSITION (:a, ?p, :b)"),
+        ("ENSURE/literal-subject", "ENSURE PROPOSITION (\"Alice\", \"p\", :b)"),
+        ("ENSURE/number-subject", "ENSURE PROPOSITION (42, \"p\", :b)"),
+        ("ENSURE/path", "ENSURE PROPOSITION (:a, \"p\"|\"q\", :b)"),
+        ("ENSURE/nested-path", "ENSURE PROPOSITION (:a, \"says\", (:c, \"p\"|\"q\", :d))"),
+        ("ENSURE/nested-literal-subject", "ENSURE PROPOSITION (:a, \"says\", (\"lit\", \"p\", :d))"),
+        ("ENSURE/ok", "ENSURE PROPOSITION ?p (:a, \"p\", :b) EXPECT VERSION 0"),
+        ("ENSURE/param-pred", "ENSURE PROPOSITION (:a, :pred, \"literal object\")"),
+        ("ENSURE/unbound-subject", "ENSURE PROPOSITION (?nowhere, \"p\", :b)"),
+        ("ENSURE/unbound-object", "ENSURE PROPOSITION ?p (:a, \"p\", ?nowhere)"),
+        ("ENSURE/unbound-nested", "ENSURE PROPOSITION (:a, \"says\", (?nowhere, \"p\", :d))"),
+        ("ENSURE/self-reference", "ENSURE PROPOSITION ?p (?p, \"p\", :b)"),
+        ("ASSERT/id", "ASSERT (id: \"P-1\") { by: :me, mode: \"stated\" }"),
+        ("ASSERT/var-pred", "ASSERT (:a, ?p, :b) { by: :me, mode: \"stated\" }"),
+        ("ASSERT/unbound-subject", "ASSERT (?nowhere, \"p\", :b) { by: :me, mode: \"stated\" }"),
+        ("ASSERT/unbound-by", "ASSERT (:a, \"p\", :b) { by: ?nobody, mode: \"stated\" }"),
+        ("ASSERT/unbound-evidence", "ASSERT (:a, \"p\", :b) { by: :me, mode: \"stated\", evidence: [?e1, :e2] }"),
+        ("ASSERT/superseding-unbound", "ASSERT (:a, \"p\", :b) { by: :me, mode: \"stated\" } SUPERSEDING ?old"),
+        ("UPSERT/no-match", "UPSERT CONCEPT ?c { SET FIELDS {name: \"Alice\"} }"),
+        ("UPSERT/name-only", "UPSERT CONCEPT ?c { MATCH {name: \"Alice\"} }"),
+        ("UPSERT/id-variable", "UPSERT CONCEPT ?c { MATCH {id: ?anything} }"),
+        ("UPSERT/id-upper", "UPSERT CONCEPT ?c { MATCH {ID: \"C-1\"} }"),
+        ("UPSERT/id-quoted", "UPSERT CONCEPT ?c { MATCH {\"id\": \"C-1\"} }"),
+        ("UPSERT/key-null", "UPSERT CONCEPT ?c { MATCH {key: null} }"),
+        ("UPSERT/key-param", "UPSERT CONCEPT ?c { MATCH {key: :k} }"),
+        ("UPSERT/id-and-name", "UPSERT CONCEPT ?c { MATCH {id: \"C-1\", name: \"x\"} }"),
+        ("UPSERT/id-nested", "UPSERT CONCEPT ?c { MATCH {id: {v: \"C-1\"}} }"),
+        ("UPSERT/id-array", "UPSERT CONCEPT ?c { MATCH {id: [\"C-1\"]} }"),
+        ("UPSERT/name-and-type", "UPSERT CONCEPT ?c { MATCH {type: \"Person\", name: \"Alice\"} }"),
+        ("UPSERT/match-path", "UPSERT CONCEPT ?c { MATCH {id: \"C-1\", about: (:a, \"p\"|\"q\", :b)} }"),
+        ("PURGE/ok", "PURGE :e CONFIRM \"PURGE\""),
+        ("PURGE/lower", "PURGE :e CONFIRM \"purge\""),
+        ("PURGE/padded", "PURGE :e CONFIRM \"PURGE \""),
+        ("PURGE/missing", "PURGE :e"),
+        ("PURGE/where", "PURGE ?e WHERE { ?e EVIDENCE {id: \"E-1\"} } LIMIT 1 REFERENCE POLICY \"refuse\" CONFIRM \"PURGE\""),
+        ("HANDLE/unbound-target", "ARCHIVE ?x"),
+        ("HANDLE/bound-by-where", "ARCHIVE ?x WHERE { ?x {id: ?y} }"),
+        ("HANDLE/filter-does-not-bind", "ARCHIVE ?x WHERE { ?c {id: \"C\"} FILTER(?x.n > 1) }"),
+        ("HANDLE/supersede-unbound", "SUPERSEDE ASSERTION :old BY ?new"),
+        ("HANDLE/correct-unbound", "CORRECT EVIDENCE ?old BY :new"),
+        ("HANDLE/merge-unbound", "MERGE CONCEPT ?a INTO ?b WHERE { ?a {id: \"1\"} }"),
+        ("HANDLE/merge-bound", "MERGE CONCEPT ?a INTO ?b WHERE { ?a {id: \"1\"} ?b {id: \"2\"} }"),
+        ("HANDLE/dup", "MUTATE { CREATE CONCEPT ?c { TYPE \"A\" } CREATE CONCEPT ?c { TYPE \"B\" } }"),
+        ("HANDLE/dup-kinds", "MUTATE { CREATE EVIDENCE ?c { } ENSURE PROPOSITION ?c (:a, \"p\", :b) }"),
+        ("HANDLE/dup-assert", "MUTATE { CREATE CONCEPT ?a { TYPE \"A\" } ASSERT ?a (:s, \"p\", :o) { by: :me, mode: \"stated\" } }"),
+        ("HANDLE/forward", "MUTATE { CREATE ASSERTION ?a { SET STRUCTURAL { (\"evidence\", ?msg) {role: \"support\"} } } CREATE EVIDENCE ?msg { } }"),
+        ("HANDLE/option-handle", "CREATE ASSERTION ?a { SET STRUCTURAL { (\"evidence\", :e) {role: \"support\", via: ?nowhere} } }"),
+        ("HANDLE/nested-value", "CREATE CONCEPT ?c { SET ATTRIBUTES { refs: [{who: ?nowhere}] } }"),
+        ("HANDLE/facet-value", "CREATE CONCEPT ?c { SET FACET \"F\" { ref: ?nowhere } }"),
+        ("HANDLE/retention-value", "SET RETENTION :t { until: ?nowhere }"),
+        ("HANDLE/transition-value", "TRANSITION ACTIVITY :a TO \"done\" SET FIELDS { out: ?nowhere }"),
+        ("HANDLE/unset-structural", "UPSERT CONCEPT ?c { MATCH {id: \"C\"} UNSET STRUCTURAL { (\"f\", ?nowhere) } }"),
+        ("HANDLE/update-structural", "UPDATE :c UNSET STRUCTURAL { (\"f\", ?nowhere) }"),
+        ("UPDATE/no-action", "UPDATE :c WHERE { ?c {id: \"C-1\"} }"),
+        ("UPDATE/empty-unset-structural", "UPDATE :c UNSET STRUCTURAL { }"),
+        ("UPDATE/joined-read", "UPDATE ?c SET FIELDS { n: ADD(?other.n, 1) } WHERE { ?c {id: \"C-1\"} }"),
+        ("UPDATE/arity", "UPDATE :c SET FIELDS { n: ADD(1) }"),
+        ("UPDATE/dup-key", "UPDATE :c SET FIELDS { a: 1, a: 2 }"),
+        ("UPDATE/dup-key-quoted", "UPDATE :c SET FIELDS { a: 1, \"a\": 2 }"),
+        ("KQL/belief-read", "FIND(?b) WHERE { ?b BELIEF (:a, \"p\", :b) }"),
+        ("META/describe", "DESCRIBE PRIMER"),
+    ];
+    for (fam, t) in texts {
+        o.text(fam, t, true);
+    }
+}
+
+// ------------------------------------------------------------------------------ injected trees
+fn injected(o: &mut Out, seeds: &[(String, Value)]) {
+    // the matrix again, on the tree path: every seed x every name (all variants)
+    let names = base_names();
+    for (family, seed) in seeds {
+        for (n, class) in &names {
+            for k in variants(n) {
+                let v = replace_str(seed, SENTINEL, &k);
+                o.inject(family, &format!("{family} with key {k:?} injected"), &v, *class != "ordinary");
+            }
+        }
+    }
+    // trees no text produces
+    let cc = |h: &str| json!({"CreateConcept": {"handle": h, "type": null, "client_key": null, "name": null,
+        "set_fields": null, "set_attributes": null, "set_facets": [], "set_structural": null}});
+    let kml = |cl: Vec<Value>| json!({"Kml": {"explicit_transaction": true, "clauses": cl}});
+    let upd = |target: Value, actions: Value, wh: Value| json!({"Update": {"target": target, "expect_version": null,
+        "actions": actions, "where_clauses": wh, "limit": null}});
+    let lit = |s: &str| json!({"Value": {"String": s}});
+    let cases: Vec<(&str, Value)> = vec![
+        ("empty-plan", kml(vec![])),
+        ("dup-handle", kml(vec![cc("c"), cc("c")])),
+        ("purge-lower", kml(vec![json!({"Purge": {"target": {"Param": "e"}, "where_clauses": null, "limit": null, "reference_policy": null, "confirm": "purge"}})])),
+        ("purge-empty", kml(vec![json!({"Purge": {"target": {"Param": "e"}, "where_clauses": null, "limit": null, "reference_policy": null, "confirm": ""}})])),
+        ("update-no-actions", kml(vec![upd(json!({"Param": "c"}), json!([]), Value::Null)])),
+        ("update-empty-unset-structural", kml(vec![upd(json!({"Param": "c"}), json!([{"UnsetStructural": []}]), Value::Null)])),
+        ("upsert-empty-unset-structural", kml(vec![json!({"UpsertConcept": {"handle": "c", "match": {"id": {"Literal": {"String": "C"}}},
+            "expect_version": null, "set_fields": null, "set_attributes": null, "set_facets": [], "unset_attributes": null,
+            "unset_facets": [], "set_structural": null, "unset_structural": []}})])),
+        ("upsert-no-match", kml(vec![json!({"UpsertConcept": {"handle": "c", "match": null,
+            "expect_version": null, "set_fields": null, "set_attributes": null, "set_facets": [], "unset_attributes": null,
+            "unset_facets": [], "set_structural": null, "unset_structural": null}})])),
+        ("upsert-id-variable", kml(vec![json!({"UpsertConcept": {"handle": "c", "match": {"id": {"Variable": "v"}},
+            "expect_version": null, "set_fields": null, "set_attributes": null, "set_facets": [], "unset_attributes": null,
+            "unset_facets": [], "set_structural": null, "unset_structural": null}})])),
+        ("upsert-unset-protected", kml(vec![json!({"UpsertConcept": {"handle": "c", "match": {"key": {"Param": "k"}},
+            "expect_version": null, "set_fields": null, "set_attributes": null, "set_facets": [], "unset_attributes": ["note", "governance"],
+            "unset_facets": [{"facet": {"Name": "F"}, "fields": ["space_id"]}], "set_structural": null, "unset_structural": null}})])),
+        ("arity-add-1", kml(vec![upd(json!({"Param": "c"}), json!([{"SetFields": [["n", {"Expr": {"Function": {"func": "Add", "args": [{"Number": 1}]}}}]]}]), Value::Null)])),
+        ("arity-clamp-2-nested", kml(vec![upd(json!({"Param": "c"}), json!([{"SetAttributes": [["n", {"Expr": {"Function": {"func": "Mul", "args": [{"Number": 1},
+            {"Function": {"func": "Clamp", "args": [{"Number": 1}, {"Number": 2}]}}]}}}]]}]), Value::Null)])),
+        ("arity-in-edge", kml(vec![upd(json!({"Param": "c"}), json!([{"SetStructural": [{"field": {"Name": "f"}, "value": {"Expr": {"Function": {"func": "Coalesce", "args": []}}}, "options": null}]}]), Value::Null)])),
+        ("dup-key-assign", kml(vec![upd(json!({"Param": "c"}), json!([{"SetAttributes": [["a", lit("1")], ["a", lit("2")]]}]), Value::Null)])),
+        ("dup-key-unset", kml(vec![upd(json!({"Param": "c"}), json!([{"UnsetAttributes": ["a", "a"]}]), Value::Null)])),
+        ("ensure-var-pred", kml(vec![json!({"EnsureProposition": {"handle": null, "subject": {"Param": "a"}, "predicate": {"Variable": "p"}, "object": {"Param": "b"}, "expect_version": null}})])),
+        ("ensure-literal-subject", kml(vec![json!({"EnsureProposition": {"handle": null, "subject": {"Literal": {"String": "x"}}, "predicate": {"Literal": "p"}, "object": {"Param": "b"}, "expect_version": null}})])),
+        ("ensure-nested-path", kml(vec![json!({"EnsureProposition": {"handle": null, "subject": {"Param": "a"}, "predicate": {"Literal": "says"},
+            "object": {"Proposition": {"Tuple": {"subject": {"Param": "c"}, "predicate": {"Path": [{"predicate": {"Literal": "p"}, "hops": {"min": 1, "max": null}}]}, "object": {"Param": "d"}}}}, "expect_version": null}})])),
+        ("ensure-nested-id", kml(vec![json!({"EnsureProposition": {"handle": "p", "subject": {"Proposition": {"Id": {"Literal": {"String": "P-1"}}}}, "predicate": {"Param": "p"}, "object": {"Literal": "Null"}, "expect_version": null}})])),
+        ("ensure-match-variable", kml(vec![json!({"EnsureProposition": {"handle": null, "subject": {"Match": {"name": {"Variable": "n"}}}, "predicate": {"Literal": "p"}, "object": {"Param": "b"}, "expect_version": null}})])),
+        ("ensure-unbound", kml(vec![json!({"EnsureProposition": {"handle": null, "subject": {"Variable": "nowhere"}, "predicate": {"Literal": "p"}, "object": {"Param": "b"}, "expect_version": null}})])),
+        ("ensure-bound", kml(vec![cc("alice"), json!({"EnsureProposition": {"handle": "p", "subject": {"Variable": "alice"}, "predicate": {"Literal": "p"}, "object": {"Variable": "alice"}, "expect_version": null}})])),
+        ("synthetic-handle-collision", kml(vec![cc("#assert0"), json!({"EnsureProposition": {"handle": "#assert0", "subject": {"Param": "a"}, "predicate": {"Literal": "p"}, "object": {"Param": "b"}, "expect_version": null}})])),
+        ("where-bound-by-belief-var", kml(vec![json!({"Archive": {"target": {"Handle": "p"}, "where_clauses": [{"Belief": {"variable": "b", "target": {"Proposition": "p"}}}], "limit": null, "expect_state": null}})])),
+        ("export-path-predicate-var", json!({"Meta": {"ExportCapsule": {"target": {"Handle": "q"}, "where_clauses":
+            [{"Proposition": {"variable": null, "matcher": {"Tuple": {"subject": {"Param": "a"}, "predicate": {"Path": [{"predicate": {"Variable": "q"}, "hops": null}]}, "object": {"Param": "b"}}}}}], "options": null, "as_of": null}}})),
+        ("kql-unchecked", json!({"Kql": {"find_clause": {"expressions": []}, "where_clauses": [{"Belief": {"variable": "b", "target": {"Proposition": "p"}}}],
+            "as_of": null, "for_time": null, "epistemic": null, "order_by": null, "limit": null, "cursor": null}})),
+        ("meta-other", json!({"Meta": {"Describe": "Protocol"}})),
+    ];
+    for (label, v) in cases {
+        o.inject(&format!("handmade/{label}"), &format!("handmade tree {label}"), &v, true);
+    }
+}
+
+/// single-node mutations of accepted trees: one string leaf (or map key) becomes a name that
+/// matters to a guard
+fn mutate_trees(o: &mut Out, rng: &mut Rng, pool: &[Value], n: usize) {
+    let subst = ["_system", "governance", "space_id", "space_seq", "confidence", "payload", "subject", "evidence",
+                 "t", "h", "nowhere", "x", "id", "key", "name", "PURGE", "purge", "a", "b", "c", "p", "e"];
+    if pool.is_empty() {
+        return;
+    }
+    for _ in 0..n {
+        let base = rng.pick(pool).clone();
+        let mut leaves = 0usize;
+        count_strings(&base, &mut leaves);
+        if leaves == 0 {
+            continue;
+        }
+        let target = rng.below(leaves as u64) as usize;
+        let with = rng.pick(&subst).to_string();
+        let mut i = 0usize;
+        let v = mutate_nth(&base, target, &with, &mut i);
+        o.inject("mutation", &format!("string leaf #{target} -> {with:?}"), &v, true);
+    }
+}
+
+fn count_strings(v: &Value, n: &mut usize) {
+    match v {
+        Value::String(_) => *n += 1,
+        Value::Array(a) => a.iter().for_each(|x| count_strings(x, n)),
+        Value::Object(m) => m.values().for_each(|x| count_strings(x, n)),
+        _ => {}
+    }
+}
+
+fn mutate_nth(v: &Value, target: usize, with: &str, i: &mut usize) -> Value {
+    match v {
+        Value::String(s) => {
+            let r = if *i == target { Value::String(with.to_string()) } else { Value::String(s.clone()) };
+            *i += 1;
+            r
+        }
+        Value::Array(a) => Value::Array(a.iter().map(|x| mutate_nth(x, target, with, i)).collect()),
+        Value::Object(m) => Value::Object(m.iter().map(|(k, x)| (k.clone(), mutate_nth(x, target, with, i))).collect()),
+        other => other.clone(),
+    }
+}
+
+// ------------------------------------------------------------------------------ plans
+fn plans(o: &mut Out, rng: &mut Rng, n: usize) {
+    let pool = ["a", "b", "c", "d", "e", "f"];
+    for _ in 0..n {
+        let len = 2 + rng.below(5) as usize;
+        let mut claimed: Vec<&str> = Vec::new();
+        let mut cl: Vec<String> = Vec::new();
+        for _ in 0..len {
+            // mostly-valid stream: a reference picks a claimed handle 5 times out of 6
+            let pick_ref = |rng: &mut Rng, claimed: &Vec<&str>| -> String {
+                if !claimed.is_empty() && rng.chance(5, 6) { format!("?{}", rng.pick(claimed)) }
+                else if rng.chance(1, 2) { format!("?{}", rng.pick(&pool)) } else { ":p".to_string() }
+            };
+            let fresh = |rng: &mut Rng, claimed: &Vec<&str>| -> &'static str {
+                let free: Vec<&&str> = pool.iter().filter(|h| !claimed.contains(h)).collect();
+                if free.is_empty() || rng.chance(1, 12) { pool[rng.below(pool.len() as u64) as usize] } else { *free[rng.below(free.len() as u64) as usize] }
+            };
+            match rng.below(9) {
+                0 => { let h = fresh(rng, &claimed); cl.push(format!("CREATE CONCEPT ?{h} {{ TYPE \"T\" NAME \"n\" SET ATTRIBUTES {{ friend: {} }} }}", pick_ref(rng, &claimed))); claimed.push(h); }
+                1 => { let h = fresh(rng, &claimed); cl.push(format!("CREATE EVIDENCE ?{h} {{ SET FIELDS {{ evidence_class: \"user_statement\" }} }}")); claimed.push(h); }
+                2 => { let h = fresh(rng, &claimed); cl.push(format!("ENSURE PROPOSITION ?{h} ({}, \"p\", {})", pick_ref(rng, &claimed), pick_ref(rng, &claimed))); claimed.push(h); }
+                3 => { let h = fresh(rng, &claimed); cl.push(format!("CREATE ASSERTION ?{h} {{ SET FIELDS {{ proposition: {}, asserted_by: {} }} SET STRUCTURAL {{ (\"evidence\", {}) {{role: \"support\"}} }} }}",
+                        pick_ref(rng, &claimed), pick_ref(rng, &claimed), pick_ref(rng, &claimed))); claimed.push(h); }
+                4 => { cl.push(format!("ASSERT ({}, \"p\", {}) {{ by: {}, mode: \"stated\", evidence: [{}] }}", pick_ref(rng, &claimed), pick_ref(rng, &claimed), pick_ref(rng, &claimed), pick_ref(rng, &claimed))); }
+                5 => { cl.push(format!("SUPERSEDE ASSERTION {} BY {}", pick_ref(rng, &claimed), pick_ref(rng, &claimed))); }
+                6 => { let v = rng.pick(&pool); cl.push(format!("UPDATE ?{v} SET ATTRIBUTES {{ seen: {} }} WHERE {{ ?{v} CONCEPT {{id: \"C\"}} }}", pick_ref(rng, &claimed))); }
+                7 => { cl.push(format!("UPDATE {} SET STRUCTURAL {{ (\"has_step\", {}) }}", pick_ref(rng, &claimed), pick_ref(rng, &claimed))); }
+                _ => { let h = fresh(rng, &claimed); cl.push(format!("UPSERT CONCEPT ?{h} {{ MATCH {{key: \"k\"}} SET STRUCTURAL {{ (\"f\", {}) }} }}", pick_ref(rng, &claimed))); claimed.push(h); }
+            }
+        }
+        let text = format!("MUTATE {{ {} }}", cl.join(" "));
+        // the text path stops at the first refusal; the tree of a refused plan is still needed for
+        // the model comparison, so parse the statement without plan validation when possible
+        if o.text("plan", &text, true).is_none() {
+            if let Some(v) = unvalidated_tree(&cl) {
+                o.inject("plan", &text, &v, true);
+            }
+        }
+    }
+}
+
+/// Builds the tree of a plan the validator refuses by parsing each clause on its own where that
+/// is possible (clauses whose own handles are claimed elsewhere fail alone), else None.
+fn unvalidated_tree(clauses: &[String]) -> Option<Value> {
+    let mut out = Vec::new();
+    for (i, c) in clauses.iter().enumerate() {
+        // bind every ?handle the clause mentions by pre-creating it, then drop the helpers
+        let mut names = BTreeSet::new();
+        let bytes = c.as_bytes();
+        let mut j = 0;
+        while j < bytes.len() {
+            if bytes[j] == b'?' {
+                let s = j + 1;
+                let mut e = s;
+                while e < bytes.len() && (bytes[e].is_ascii_alphanumeric() || bytes[e] == b'_') { e += 1; }
+                names.insert(c[s..e].to_string());
+                j = e;
+            } else { j += 1; }
+        }
+        // helpers claim handles zz_<name>; rename references is not possible without reparsing,
+        // so only clauses that parse standalone or with helper handles not clashing are taken
+        let own: Vec<String> = names.iter().cloned().collect();
+        let claims_own = c.starts_with("CREATE") || c.starts_with("UPSERT") || c.starts_with("ENSURE PROPOSITION ?");
+        let own_handle = if claims_own { c.split('?').nth(1).map(|s| s.chars().take_while(|ch| ch.is_ascii_alphanumeric() || *ch == '_').collect::<String>()) } else { None };
+        let helpers: Vec<String> = own.iter().filter(|n| Some((*n).clone()) != own_handle).map(|n| format!("CREATE EVIDENCE ?{n} {{ }}")).collect();
+        let text = format!("MUTATE {{ {} {} }}", helpers.join(" "), c);
+        let Ok(Command::Kml(stmt)) = parse_kip(&text) else { return None };
+        let v = serde_json::to_value(&stmt.clauses[helpers.len()..]).ok()?;
+        let arr = v.as_array()?.clone();
+        // ASSERT synthesises handles from its position: keep the position it had in the plan
+        for cl in arr {
+            let s = cl.to_string().replace(&format!("#assert{}", helpers.len()), &format!("#assert{i}"));
+            out.push(serde_json::from_str::<Value>(&s).ok()?);
+        }
+    }
+    Some(json!({"Kml": {"explicit_transaction": true, "clauses": out}}))
+}
+
+// ------------------------------------------------------------------------------ ASSERT
+fn asserts(o: &mut Out) {
+    let by = [Some(":alice"), Some("?who"), Some("\"actor:1\""), None];
+    let mode = [Some("\"stated\""), Some(":m"), None];
+    let optional: &[(&str, &[&str])] = &[
+        ("stance", &["\"oppose\"", ":s"]),
+        ("confidence", &["0.9", ":c", "1"]),
+        ("at", &["\"2026-01-01T00:00:00Z\"", ":now"]),
+        ("valid", &["{from: \"2026-01-01\", to: :end}", "{from: \"2026-01-01\"}"]),
+        ("evidence", &[":msg", "?ev", "[:e1, :e2]", "[\"E-1\", \"E-2\"]", "[?ev, \"E-2\", :e3]", "[]", "\"E-9\"", "{id: \"E\"}"]),
+        ("key", &["\"k-1\"", ":k", "42", "true", "null", "[1]", "{a: 1}", "?who"]),
+        ("oops", &["1"]),
+        ("BY", &[":shadow"]),
+    ];
+    let tuples = ["(:a, \"p\", :b)", "(?who, :pred, \"lit\")", "(:a, \"says\", (:c, \"q\", :d))", "({type: \"T\", name: \"n\"}, \"p\", 3)"];
+    let mut count = 0usize;
+    for (ti, tuple) in tuples.iter().enumerate() {
+        for b in by {
+            for m in mode {
+                // every single optional member value, and a few fixed combinations
+                let mut member_sets: Vec<Vec<(&str, &str)>> = vec![vec![]];
+                for (k, vals) in optional {
+                    for v in *vals {
+                        member_sets.push(vec![(*k, *v)]);
+                    }
+                }
+                member_sets.push(vec![("stance", "\"oppose\""), ("confidence", "0.5"), ("at", ":now"), ("valid", "{from: :f}"), ("evidence", "[:e1, ?ev]"), ("key", ":k")]);
+                member_sets.push(vec![("key", "\"k\""), ("evidence", ":msg"), ("confidence", ":c")]);
+                member_sets.push(vec![("confidence", "0.1"), ("confidence", "0.2")]);
+                for ms in member_sets {
+                    for handle in [None, Some("new")] {
+                        for sup in [None, Some(":old"), Some("?prev"), Some("\"A-7\"")] {
+                            count += 1;
+                            // thin the product deterministically outside the first tuple
+                            if ti > 0 && count % 5 != 0 {
+                                continue;
+                            }
+                            let mut members: Vec<String> = Vec::new();
+                            // member order varies with the case index
+                            let mut all: Vec<(String, String)> = Vec::new();
+                            if let Some(b) = b { all.push(("by".into(), b.into())); }
+                            if let Some(m) = m { all.push(("mode".into(), m.into())); }
+                            for (k, v) in &ms { all.push((k.to_string(), v.to_string())); }
+                            if count % 3 == 1 { all.reverse(); }
+                            for (k, v) in &all { members.push(format!("{k}: {v}")); }
+                            let block = format!("{{ {} }}", members.join(", "));
+                            let seq = count % 3;
+                            assert_case(o, handle, tuple, &block, sup, seq);
+                        }
+                    }
+                }
+            }
+        }
+    }
+}
+
+/// One ASSERT case.  The statement's parts are obtained from the implementation through other
+/// statements that share the sub-grammar (ENSURE PROPOSITION for the tuple, SET RETENTION for the
+/// member block, SUPERSEDE ASSERTION for the reference); the ASSERT itself is parsed at position
+/// `seq` of a MUTATE block whose other clauses claim every handle the case mentions.
+fn assert_case(o: &mut Out, handle: Option<&str>, tuple: &str, block: &str, sup: Option<&str>, seq: usize) {
+    o.asserts += 1;
+    let ensure = match parse_kip(&format!("MUTATE {{ CREATE EVIDENCE ?who {{ }} ENSURE PROPOSITION {tuple} }}")) {
+        Ok(Command::Kml(s)) => serde_json::to_value(&s.clauses[1]).unwrap(),
+        _ => return,
+    };
+    let members = match parse_kip(&format!("MUTATE {{ CREATE EVIDENCE ?who {{ }} CREATE EVIDENCE ?ev {{ }} SET RETENTION :t {block} }}")) {
+        Ok(Command::Kml(s)) => serde_json::to_value(&s.clauses[2]).unwrap()["SetRetention"]["values"].clone(),
+        _ => Value::Null, // the member block itself is refused by the shared assignments grammar
+    };
+    let superseding = match sup {
+        None => Value::Null,
+        Some(r) => match parse_kip(&format!("MUTATE {{ CREATE ASSERTION ?prev {{ }} SUPERSEDE ASSERTION {r} BY :x }}")) {
+            Ok(Command::Kml(s)) => serde_json::to_value(&s.clauses[1]).unwrap()["SupersedeAssertion"]["target"].clone(),
+            _ => return,
+        },
+    };
+    let helpers = ["CREATE EVIDENCE ?who { }", "CREATE EVIDENCE ?ev { }", "CREATE ASSERTION ?prev { }"];
+    let pre: Vec<&str> = helpers.iter().take(seq).cloned().collect();
+    let post: Vec<&str> = helpers.iter().skip(seq).cloned().collect();
+    let h = handle.map(|h| format!("?{h} ")).unwrap_or_default();
+    let s = sup.map(|s| format!(" SUPERSEDING {s}")).unwrap_or_default();
+    let stmt = format!("ASSERT {h}{tuple} {block}{s}");
+    let text = format!("MUTATE {{ {} {stmt} {} }}", pre.join(" "), post.join(" "));
+    let obs = match parse_kip(&text) {
+        Ok(Command::Kml(st)) => {
+            o.assert_accepted += 1;
+            let n = st.clauses.len() - 3;
+            let own: Vec<Value> = st.clauses[seq..seq + n].iter().map(|c| serde_json::to_value(c).unwrap()).collect();
+            // independent reading of the expansion: shape and field names
+            let names: Vec<String> = own.iter().filter_map(|c| c.as_object().and_then(|m| m.keys().next().cloned())).collect();
+            let expect: Vec<&str> = if sup.is_some() { vec!["EnsureProposition", "CreateAssertion", "SupersedeAssertion"] } else { vec!["EnsureProposition", "CreateAssertion"] };
+            if names != expect {
+                o.fail("assert-expansion", format!("ASSERT expanded to {names:?}, expected {expect:?}"), &text, None);
+            } else {
+                let rc = &own[1]["CreateAssertion"];
+                let keys: Vec<&str> = rc["set_fields"].as_array().map(|a| a.iter().filter_map(|p| p[0].as_str()).collect()).unwrap_or_default();
+                let written: Vec<&str> = members.as_array().map(|a| a.iter().filter_map(|p| p[0].as_str()).collect()).unwrap_or_default();
+                let mut want = vec!["proposition", "asserted_by", "mode", "stance"];
+                for (m, fld) in [("confidence", "confidence"), ("at", "asserted_at"), ("valid", "valid_time")] {
+                    if written.contains(&m) { want.push(fld); }
+                }
+                if keys != want || rc["set_facets"] != json!([]) {
+                    o.fail("assert-expansion", format!("ASSERT assertion carries fields {keys:?}, author wrote {written:?}"), &text, Some(rc));
+                }
+            }
+            Value::Array(own)
+        }
+        Ok(_) => return,
+        Err(_) => Value::Null,
+    };
+    if members.is_null() && !obs.is_null() {
+        o.fail("assert-expansion", "ASSERT accepted a member block the assignments grammar refuses".into(), &text, None);
+    }
+    if members.is_null() {
+        return; // nothing to compare: the block is not an assignments value at all
+    }
+    if by_or_mode_missing(&members) && !obs.is_null() {
+        o.fail("assert-expansion", "ASSERT accepted without by or without mode".into(), &text, None);
+    }
+    let line = json!({"kind": "assert", "src": text, "seq": seq, "handle": handle, "ensure": ensure["EnsureProposition"],
+                      "members": members, "superseding": superseding, "obs": obs});
+    writeln!(o.w, "{line}").unwrap();
+}
+
+fn by_or_mode_missing(members: &Value) -> bool {
+    let keys: Vec<&str> = members.as_array().map(|a| a.iter().filter_map(|p| p[0].as_str()).collect()).unwrap_or_default();
+    !keys.contains(&"by") || !keys.contains(&"mode")
+}
+
+// ------------------------------------------------------------------------------ main
+fn c16(args: &[String]) {
+    let out = arg_value(args, "--out").expect("--out");
+    let n_plans: usize = arg_value(args, "--plans").and_then(|s| s.parse().ok()).unwrap_or(1000);
+    let n_mut: usize = arg_value(args, "--mutations").and_then(|s| s.parse().ok()).unwrap_or(2000);
+    let mut rng = Rng::from_env();
+    let mut o = Out {
+        w: std::io::BufWriter::new(std::fs::File::create(&out).expect("create out")),
+        seen: BTreeSet::new(), trees: 0, accepted: BTreeMap::new(), rejected: BTreeMap::new(), failures: Vec::new(), failure_classes: BTreeMap::new(),
+        oracle_failures: 0, texts: 0, text_accepted: 0, text_errors: BTreeMap::new(), families: BTreeMap::new(),
+        inject_total: 0, asserts: 0, assert_accepted: 0,
+    };
+    std::panic::set_hook(Box::new(|_| {}));
+    let mut seeds: Vec<(String, Value)> = Vec::new();
+    matrix(&mut o, &mut seeds);
+    selections(&mut o);
+    guards(&mut o);
+    injected(&mut o, &seeds);
+    plans(&mut o, &mut rng, n_plans);
+    let pool: Vec<Value> = seeds.iter().map(|(_, v)| v.clone()).collect();
+    mutate_trees(&mut o, &mut rng, &pool, n_mut);
+    asserts(&mut o);
+    let summary = json!({
+        "kind": "summary",
+        "texts": o.texts, "text_accepted": o.text_accepted, "text_errors": o.text_errors,
+        "injected": o.inject_total, "trees_written": o.trees,
+        "accepted": o.accepted, "rejected": o.rejected,
+        "families": o.families.len(), "seeds": seeds.len(),
+        "asserts": o.asserts, "assert_accepted": o.assert_accepted,
+        "oracle_failures": o.oracle_failures, "failure_classes": o.failure_classes, "failures": o.failures,
+        "evaluations": o.texts + o.inject_total + o.asserts,
+    });
+    writeln!(o.w, "{summary}").unwrap();
+    o.w.flush().unwrap();
+}
+
+fn probe() {
+    let mut s = String::new();
+    std::io::stdin().read_to_string(&mut s).unwrap();
+    for line in s.lines() {
+        if line.trim().is_empty() {
+            continue;
+        }
+        match parse_kip(line) {
+            Ok(c) => {
+                let v = serde_json::to_value(&c).unwrap();
+                let fs = oracle::findings(&v);
+                println!("OK   {line}\n     {v}\n     oracle: {fs:?}");
+            }
+            Err(e) => println!("ERR  {line}\n     {:?} {}", e.code, e.message.lines().next().unwrap_or("")),
+        }
+    }
+}
+
+fn main() {
+    let args: Vec<String> = std::env::args().collect();
+    match args.get(1).map(|s| s.as_str()) {
+        Some("c16") => c16(&args),
+        Some("probe") => probe(),
+        _ => eprintln!("usage: h_kip c16 --out FILE | probe"),
     }
 }
